@@ -94,6 +94,12 @@ CHECKS = {
    text="Programs of constructor/With*/Add* calls over the five entry builders and both encap-header builders, interleaved with AddEntry/ReplaceEntry/DeleteEntry, UpdateElectionID, StartSending and OpProto/EntryProto probes, run on a fluent client (elected-primary or all-primary) wired to a recording stub; builders keep being mutated after they were queued. An independent interpreter computes the expected protos, ids 1,2,3.., operation types and election stamps; probes are compared immediately, the request pointers received by the stub only at the very end so that aliasing of queued messages shows.",
    note="Trusted: the interpreter's reading of each setter (last call wins, Add* appends); header builders are not modified after AddEncapHeader; the stub stands in for gRPC (no serialisation).",
    design="DESIGN.md §4 C18"),
+ "C13": dict(
+   technique="model-based property testing of the client library against a scripted stub server with adversarial response schedules and a concurrent sampler",
+   level="exploration",
+   text="The client is driven through a scripted stub GRIBIClient: generated request batches and server schedules (results reordered across ids, grouped into responses, RIB and FIB acks split, election/parameter responses interleaved; violating servers with unknown ids, duplicate terminal results, multi-field responses). At every probe, after the receiver has provably processed everything sent (Recv-call synchronisation), Pending/Results must match the client model id by id (exactly one of pending / terminal result, details carry the operation's type and key, a RIB ack never completes an operation in FIB-ack mode) and AwaitConverged must return nil iff the model is converged, and a *ClientErr after a violating schedule; a concurrent sampler checks that no operation is ever lost.",
+   note="Trusted: the client model; Recv-call counting as the processing barrier; BusyLoopDelay set to 1 ms. One known finding is tolerated by signature (RIB_PROGRAMMED for a non-pending id in FIB-ack mode is not reported).",
+   design="DESIGN.md §4 C13"),
 }
 NOT_YET = {}
 
